@@ -2,12 +2,13 @@
 from __future__ import annotations
 
 import itertools
+import os
 import math
 from fractions import Fraction
 
 import numpy as np
 
-from common import Check, clist, copt, coq_eval_cases, coq_eval_expr, ctuple, cz
+from common import Check, cbool, clist, copt, coq_eval_cases, coq_eval_expr, ctuple, cz
 from c13 import rand_chunks
 
 HEADER = "From DA Require Import PyBase NormChunks.\nOpen Scope Z_scope.\n"
@@ -177,12 +178,200 @@ def fam_normalize(chk, NC, tier):
     chk.traces_validated += len(cases) - len(mism)
 
 
-def fam_previous(chk, NC, tier):
-    """auto with previous_chunks: not modelled; property-level checks only"""
+# --------------------------------------------------------------------------
+# previous_chunks branch of auto_chunks: recorder for the float oracle, time limit, Coq literals
+HEADER_PREV = "From DA Require Import PyBase NormChunks AutoPrev.\nOpen Scope Z_scope.\n"
+PREV_FUEL = 64          # loop rounds the model is given; the recorder aborts the real call when it starts round 65
+
+
+class Hang(BaseException):
+    pass
+
+
+class time_limit:
+    """turns a non-terminating call into an exception (SIGALRM; main thread only)"""
+
+    def __init__(self, seconds):
+        self.seconds = seconds
+
+    def __enter__(self):
+        import signal
+
+        def handler(signum, frame):
+            raise Hang()
+        self.old = signal.signal(signal.SIGALRM, handler)
+        signal.setitimer(signal.ITIMER_REAL, self.seconds)
+
+    def __exit__(self, *a):
+        import signal
+        signal.setitimer(signal.ITIMER_REAL, 0)
+        signal.signal(signal.SIGALRM, self.old)
+
+
+class AutoTrace:
+    """Records, for every pass of `while multiplier_remaining:` in auto_chunks (previous_chunks branch), the floats
+    `proposed` and `max_chunk_size` of every axis visited — the oracle arguments of the Gallina model — by tracing
+    the frame of auto_chunks (sys.settrace, line events at two anchor lines).  Aborts the call (Hang) when the
+    loop starts pass number max_rounds + 1."""
+
+    anchors = None
+
+    @classmethod
+    def find_anchors(cls):
+        if cls.anchors is None:
+            import inspect
+            from dask_array import _core_utils as CU
+            src, start = inspect.getsourcelines(CU.auto_chunks)
+
+            def line(txt):
+                hits = [i for i, ln in enumerate(src) if ln.strip().startswith(txt)]
+                if len(hits) != 1:
+                    raise RuntimeError(f"auto_chunks: anchor line {txt!r} found {len(hits)} times")
+                return start + hits[0]
+            cls.anchors = (CU.auto_chunks.__code__, line("last_autos = set(autos)"), line("if proposed > shape[a]:"))
+        return cls.anchors
+
+    def __init__(self, max_rounds):
+        self.code, self.l_round, self.l_prop = self.find_anchors()
+        self.rounds = []
+        self.mults = []           # `multiplier` at the start of every pass
+        self.calls = 0
+        self.max_rounds = max_rounds
+
+    def __call__(self, frame, event, arg):
+        if frame.f_code is self.code and event == "call":
+            self.calls += 1
+            return self.local
+        return None
+
+    def local(self, frame, event, arg):
+        if event == "line":
+            ln = frame.f_lineno
+            if ln == self.l_round:
+                if len(self.rounds) >= self.max_rounds:
+                    raise Hang()
+                self.rounds.append({})
+                self.mults.append(frame.f_locals["multiplier"])
+            elif ln == self.l_prop:
+                loc = frame.f_locals
+                self.rounds[-1][loc["a"]] = (loc["proposed"], loc["max_chunk_size"])
+        return self.local
+
+
+def traced(fn, max_rounds=PREV_FUEL, seconds=10):
+    """run fn() under the recorder and a time limit -> (kind, value, trace); kind in ok / EZeroDiv / EValue / hang / timeout"""
+    import sys
+    import warnings
+    tr = AutoTrace(max_rounds)
+    old = sys.gettrace()
+    try:
+        with warnings.catch_warnings():
+            warnings.simplefilter("ignore")
+            try:
+                with time_limit(seconds):
+                    sys.settrace(tr)
+                    try:
+                        out = fn()
+                    finally:
+                        sys.settrace(old)
+                return "ok", out, tr
+            except Hang:
+                return ("hang" if len(tr.rounds) >= max_rounds else "timeout"), None, tr
+            except ZeroDivisionError:
+                return "EZeroDiv", None, tr
+            except (ValueError, TypeError, IndexError, OverflowError, KeyError):
+                return "EValue", None, tr
+    finally:
+        sys.settrace(old)
+
+
+def fval_of(x):
+    """a recorded float -> 'FNan' | (num, den) | None (complex / infinite: outside the model)"""
+    if isinstance(x, (complex, np.complexfloating)):
+        return None
+    x = float(x)
+    if x != x:
+        return "FNan"
+    if x in (float("inf"), float("-inf")):
+        return None
+    fr = Fraction(x)
+    return (fr.numerator, fr.denominator)
+
+
+def cfval(v):
+    return "FNan" if v == "FNan" else f"(FQ {cz(v[0])} {cz(v[1])})"
+
+
+def cprev(prev):
+    return clist(prev, lambda p: clist(p) if isinstance(p, tuple) else clist((p,)))
+
+
+def coq_eval_multi(header, case_type, check_defs, names, cases, chunk=120, timeout=900):
+    """coq_eval_cases for several checkers over the SAME case literals (parsed once per chunk): `check_defs` defines the
+    functions `names` : case_type -> bool; returns one sorted list of mismatch indices per name."""
+    import re
+    import shutil
+    import tempfile
+    from concurrent.futures import ThreadPoolExecutor
+    from common import COQ_ARGS, SCRATCH_ROOT, sh
+    if not cases:
+        return [[] for _ in names]
+    d = tempfile.mkdtemp(prefix="verif-cases-", dir=SCRATCH_ROOT)
+    try:
+        files = []
+        for k in range(0, len(cases), chunk):
+            path = os.path.join(d, f"cases_{k // chunk}.v")
+            with open(path, "w") as f:
+                f.write(header + "\n" + check_defs + "\n")
+                f.write(f"Definition cases : list ({case_type}) :=\n [ " + ";\n   ".join(cases[k:k + chunk]) + " ].\n")
+                for nm in names:
+                    f.write(f"Eval vm_compute in (mismatches {nm} cases).\n")
+            files.append((k, path))
+
+        def run(item):
+            k, path = item
+            rc, out = sh(["timeout", str(timeout), "coqc", *COQ_ARGS, path], timeout=timeout + 30)
+            return k, rc, out
+        with ThreadPoolExecutor(max_workers=min(12, os.cpu_count() or 8)) as ex:
+            results = list(ex.map(run, files))
+        res = [[] for _ in names]
+        for k, rc, out in results:
+            if rc != 0:
+                raise RuntimeError("coqc failed on generated cases file:\n" + out[-2000:])
+            found = re.findall(r"=\s*(\[.*?\])\s*:\s*list nat", out, flags=re.S)
+            if len(found) != len(names):
+                raise RuntimeError("cannot parse coqc output:\n" + out[-2000:])
+            for j, txt in enumerate(found):
+                res[j] += [k + int(num) for num in re.findall(r"\d+", txt)]
+        return [sorted(r) for r in res]
+    finally:
+        shutil.rmtree(d, ignore_errors=True)
+
+
+def prev_inputs(chk, tier):
+    """(origin, specs, shape, prev, dtype-str, limit) — corpus first, then the generated + directed families, then the
+    malformed stream (expected: both raise)"""
     rng = chk.rng
-    import dask
     import random as _random
     drng = _random.Random(f"C16-previous-directed-{chk.seed}")
+    erng = _random.Random(f"C16-previous-extra-{chk.seed}")
+    inputs = [
+        # corpus (findings): zero-size previous chunks -> block of 2x / 4x the limit (tolerance 1.25)
+        ("corpus", ("auto", "auto"), (1, 100), ((0, 1), (10,) * 10), "u1", 10),
+        ("corpus", ("auto", "auto", "auto"), (1, 1, 100), ((0, 1), (0, 1), (10,) * 10), "u1", 10),
+        # corpus (finding C14-F26): negative explicit entry next to two 'auto' axes -> the loop never ends
+        ("malformed", (-2, "auto", "auto"), (5, 5, 2), ((1, 1, 1, 1, 1), (5,), (2,)), "i4", 2 ** 27),
+        ("malformed", ("auto", "auto"), (5, 2), ((-5, -1), (2,)), "i4", 8),
+        ("malformed", (-2, "auto"), (5, 5), ((1, 1, 1, 1, 1), (5,)), "i4", 2 ** 27),
+        ("corpus", ("auto", None), (4, 0), ((1, 1, 1, 1), (0,)), "i4", 8),
+        ("corpus", ("auto",), (100,), ((10,) * 10,), "u1", 25),
+        ("corpus", ("auto",), (100,), ((10,) * 10,), "u1", 7),
+        ("corpus", ("auto", "auto"), (100, 100), ((10,) * 10, (50, 50)), "u1", 2500),
+        ("corpus", ("auto", "auto"), (5, 2), (5, 2), "i4", 8),
+        ("corpus", ("auto", "auto"), (5, 2), ((5,), (2,), (3,)), "i4", 8),
+        ("corpus", ("auto", "auto"), (0, 0), ((0,), (0,)), "i4", 8),
+        ("corpus", ("auto", "auto", "auto", None), (38, 4707, 25, 41), ((15, 15, 8), (4707,), (21, 4), (31, 8, 2)), "u1", 4311433),
+    ]
     for _ in range(6000 if tier == "thorough" else 900):
         rank = rng.choice([1, 2, 2, 3])
         shape = tuple(rng.choice([1, 2, 5, 10, 16, 33, 100, 200, 1000]) for _ in range(rank))
@@ -219,31 +408,217 @@ def fam_previous(chk, NC, tier):
             specs = ("auto",) * rank
         if "auto" not in specs:
             continue
-        try:
-            out = NC(specs, shape=shape, limit=limit, dtype=dtype, previous_chunks=prev)
-        except Exception as e:  # noqa: BLE001
-            chk.count("previous:raises")
-            chk.case(("prev", specs, shape, prev, str(dtype), limit), nontrivial=False)
+        inputs.append(("generated", specs, shape, prev, str(dtype), limit))
+    # directed families for the model tie
+    for _ in range(4000 if tier == "thorough" else 500):
+        k = erng.random()
+        rank = erng.choice([1, 2, 3, 3, 4])
+        shape = tuple(erng.randint(1, erng.choice([5, 50, 50, 300, 300, 2000])) for _ in range(rank))
+        dtype = erng.choice(["u1", "i4", "f8"])
+
+        def pc(n):
+            q = erng.random()
+            if q < 0.35:
+                c = erng.randint(1, n)
+                return (c,) * (n // c) + ((n % c,) if n % c else ())
+            if q < 0.45:
+                return (n,)
+            return rand_chunks(erng, n, allow_zero=erng.random() < 0.2)
+        prev = tuple(pc(n) for n in shape)
+        specs = tuple(erng.choice(["auto", "auto", "auto", None, -1, erng.randint(1, n), rand_chunks(erng, n)]) for n in shape)
+        limit = erng.randint(1, erng.choice([10, 1000, 10 ** 5, 10 ** 7]))
+        origin = "directed"
+        if k < 0.15:
+            # previous chunks given as ints (h5py / zarr `.chunks`) or 1-tuples: expanded by blockdims_from_blockshape
+            prev = tuple(erng.choice([erng.randint(1, n), (erng.randint(1, n),)]) if erng.random() < 0.7 else p for n, p in zip(shape, prev))
+        elif k < 0.3:
+            # zero-length axes
+            shape = tuple(0 if erng.random() < 0.4 else n for n in shape)
+            prev = tuple(((0,) if n == 0 else p) for n, p in zip(shape, prev))
+            specs = tuple(("auto" if erng.random() < 0.7 else sp) if n == 0 else sp for n, sp in zip(shape, specs))
+        elif k < 0.5:
+            # all axes 'auto', small limit: the shrinking case iterates to a fixed point
+            specs = ("auto",) * rank
+            limit = erng.randint(1, 200)
+        elif k < 0.6:
+            # limit far above the array: every axis hits the shape boundary
+            specs = tuple("auto" if erng.random() < 0.8 else sp for sp in specs)
+            limit = 10 ** erng.randint(8, 12)
+        elif k < 0.68:
+            # shrinking case that hits the shape boundary in a later pass (result IS median_chunks there, so the axis is
+            # counted twice in the recomputed multiplier): few previous chunks per axis, limit just below the whole array
+            rank = erng.choice([2, 2, 3])
+            shape = tuple(erng.choice([1, 2, 3, 4, 5, 7, 10, 12, 20, 50]) for _ in range(rank))
+            prev = tuple((n,) if erng.random() < 0.6 else rand_chunks(erng, n) for n in shape)
+            specs = ("auto",) * rank
+            dtype = erng.choice(["u1", "u1", "i4"])
+            limit = max(1, int(math.prod(shape) * np.dtype(dtype).itemsize * erng.uniform(0.4, 0.999)))
+        elif k < 0.78:
+            origin = "malformed"
+            m = erng.random()
+            if m < 0.35:
+                specs = tuple(erng.choice([0, -2, -3, (n + 1, -1), ()]) if (sp != "auto" and erng.random() < 0.7) else sp for sp, n in zip(specs, shape))
+            elif m < 0.6:
+                j = erng.randrange(rank)
+                p = list(prev[j])
+                p[erng.randrange(len(p))] += erng.choice([-1, 1, 2, -shape[j] - 1])
+                prev = prev[:j] + (tuple(p),) + prev[j + 1:]
+            elif m < 0.7:
+                prev = prev[:-1] if erng.random() < 0.5 else prev + ((3,),)
+            elif m < 0.8:
+                j = erng.randrange(rank)
+                prev = prev[:j] + (erng.choice([(), 0, (0,), -2]),) + prev[j + 1:]
+            elif m < 0.9:
+                dtype = "S0"
+            else:
+                limit = erng.choice([0, -5])
+        if "auto" not in specs:
             continue
-        chk.count("previous")
-        chk.case(("prev", specs, shape, prev, str(dtype), limit), nontrivial=True,
-                 sample={"fn": "normalize_chunks", "chunks": specs, "shape": shape, "previous_chunks": prev, "dtype": str(dtype), "limit": limit, "impl": out})
-        problems = []
-        for ax, (c, n) in enumerate(zip(out, shape)):
-            if len(c) == 0 or any(x <= 0 for x in c) or sum(c) != n:
-                problems.append(f"axis {ax}: {c} is not a layout of length {n}")
-        if not problems:
-            tol = dask.config.get("array.chunk-size-tolerance")
-            fixed = math.prod(max(c) for c, sp in zip(out, specs) if sp != "auto")
-            block = math.prod(max(c) for c in out)
-            # the previous_chunks branch promises the limit only up to the configured tolerance
-            if block * dtype.itemsize > limit * tol and fixed * dtype.itemsize <= limit \
-                    and any(max(c) > 1 for c, sp in zip(out, specs) if sp == "auto"):
-                problems.append(f"auto block of {block * dtype.itemsize} bytes exceeds limit {limit} x tolerance {tol}")
-        if problems:
-            chk.violation("; ".join(problems), {"fn": "normalize_chunks", "chunks": specs, "shape": shape, "previous_chunks": prev,
-                                                "dtype": str(dtype), "limit": limit, "impl": out},
-                          signature={"fn": "normalize_chunks", "class": "previous_chunks"})
+        inputs.append((origin, specs, shape, prev, dtype, limit))
+    return inputs
+
+
+def fam_previous(chk, NC, tier):
+    """auto with previous_chunks: the real normalize_chunks (and x.rechunk) under the oracle recorder and a time limit,
+    checked against the property and compared exactly with the Gallina model AutoPrev.normalize_chunks_prev"""
+    import dask
+    tol = dask.config.get("array.chunk-size-tolerance")
+    cases, kept = [], []
+    inputs = prev_inputs(chk, tier)
+    # the same branch reached through the public API: x.rechunk(spec, block_size_limit=...)
+    import random as _random
+    arng = _random.Random(f"C16-previous-api-{chk.seed}")
+    import dask_array as da
+    for _ in range(1200 if tier == "thorough" else 120):
+        rank = arng.choice([1, 2, 3])
+        shape = tuple(arng.choice([1, 2, 5, 10, 33, 100, 200]) for _ in range(rank))
+        prev = tuple(rand_chunks(arng, n, allow_zero=arng.random() < 0.1) for n in shape)
+        specs = tuple(arng.choice(["auto", "auto", -1, arng.randint(1, n)]) for n in shape)
+        if "auto" not in specs:
+            continue
+        inputs.append(("api", specs, shape, prev, arng.choice(["u1", "i4", "f8"]), arng.choice([8, 64, 1000, 4096, 10 ** 5])))
+    for origin, specs, shape, prev, dtype, limit in inputs:
+        dt = np.dtype(dtype)
+        if origin == "api":
+            kind, out, tr = traced(lambda: da.ones(shape, chunks=prev, dtype=dt).rechunk(specs, block_size_limit=limit).chunks)
+        else:
+            kind, out, tr = traced(lambda: NC(specs, shape=shape, limit=limit, dtype=dt, previous_chunks=prev))
+        canon = ("prev", origin == "api", specs, shape, prev, str(dt), limit)
+        desc = {"fn": "normalize_chunks", "via_rechunk": origin == "api", "chunks": specs, "shape": shape, "previous_chunks": prev,
+                "dtype": str(dt), "limit": limit, "impl": out if kind == "ok" else kind}
+        malformed = origin == "malformed"
+        if kind in ("hang", "timeout"):
+            chk.count(f"previous:{origin}:hangs")
+            chk.case(canon, nontrivial=True, sample=desc)
+            chk.violation("normalize_chunks(..., previous_chunks=...) does not terminate: `while multiplier_remaining` in auto_chunks "
+                          f"is still running after {len(tr.rounds)} passes",
+                          desc, signature={"fn": "normalize_chunks", "class": "previous_chunks-hangs", "malformed_input": malformed})
+        elif kind != "ok":
+            chk.count(f"previous:{origin}:raises")
+            chk.case(canon, nontrivial=False)
+        else:
+            chk.count("previous" if origin == "generated" else f"previous:{origin}")
+            chk.case(canon, nontrivial=True, sample=desc)
+            problems = []
+            for ax, (c, n) in enumerate(zip(out, shape)):
+                if len(c) == 0 or any(x < 0 for x in c) or (n > 0 and any(x <= 0 for x in c)) or sum(c) != n:
+                    problems.append(f"axis {ax}: {c} is not a layout of length {n}")
+            sig = {"fn": "normalize_chunks", "class": "previous_chunks"}
+            if not problems:
+                fixed = math.prod(max(c) for c, sp in zip(out, specs) if sp != "auto")
+                block = math.prod(max(c) for c in out)
+                # the previous_chunks branch promises the limit only up to the configured tolerance
+                if block * dt.itemsize > max(1, limit) * tol and fixed * dt.itemsize <= limit \
+                        and any(max(c) > 1 for c, sp in zip(out, specs) if sp == "auto"):
+                    problems.append(f"auto block of {block * dt.itemsize} bytes exceeds limit {limit} x tolerance {tol}")
+                    zero_prev = any(isinstance(p, tuple) and 0 in p for p, n in zip(prev, shape) if n > 0)
+                    sig = {"fn": "normalize_chunks", "class": "previous_chunks-limit", "zero_size_previous_chunks": zero_prev}
+            if problems:
+                chk.violation("; ".join(problems), desc, signature=sig)
+        # ---- model correspondence
+        if kind == "timeout" or tr.calls > 1 or (isinstance(prev, tuple) and len(prev) == 0):
+            chk.count("previous:tie-skipped")
+            continue
+        tbl, ok = [], True
+        for rd in tr.rounds:
+            row = []
+            for a in sorted(rd):
+                p, q = fval_of(rd[a][0]), fval_of(rd[a][1])
+                if p is None or q is None:
+                    ok = False
+                    break
+                row.append((a, p, q))
+            tbl.append(row)
+        mults = [fval_of(m) for m in tr.mults]
+        if not ok or any(m is None for m in mults):
+            chk.count("previous:complex-or-inf-oracle (outside the model)")
+            continue
+        if any(not isinstance(sp, (int, tuple, str, type(None))) for sp in specs):
+            continue
+        if sum(len(p) if isinstance(p, tuple) else 1 for p in prev) + (sum(len(c) for c in out) if kind == "ok" else 0) > 1200:
+            chk.count("previous:tie-skipped (literal too large)")
+            continue
+        expected = "PFuel" if kind == "hang" else f"(PErr {kind})" if kind != "ok" else "(POk " + clist(out, lambda c: clist(c)) + ")"
+        # instances of the theorems' hypotheses on this run: valid input (positive explicit entries, previous chunks a
+        # layout of the shape) that was accepted; bnd = the byte bound limit x 5/4 holds on the real output
+        valid = kind == "ok" and origin != "malformed"
+        bnd = True
+        if kind == "ok":
+            bnd = math.prod(max(c) for c in out) * dt.itemsize * 4 <= 5 * max(1, limit)
+        if origin != "malformed" and any(e[1] == "FNan" or e[2] == "FNan" for row in tbl for e in row):
+            chk.violation("a NaN proposal on a well-formed input (auto_chunks with previous_chunks)", desc,
+                          signature={"fn": "normalize_chunks", "class": "previous_chunks-nan", "malformed_input": False})
+        cases.append(ctuple(clist(tbl, lambda row: clist(row, lambda e: ctuple(f"{e[0]}%nat", ctuple(cfval(e[1]), cfval(e[2]))))),
+                            cz(limit), cz(dt.itemsize), clist(specs, cspec), clist(shape), cprev(prev), expected,
+                            cbool(valid), cbool(bnd), cz(len(tr.rounds)), clist(mults, cfval)))
+        kept.append((origin, specs, shape, prev, str(dt), limit, kind, out, tbl))
+        chk.count(f"previous:tie:rounds={min(len(tr.rounds), 8)}{'+' if len(tr.rounds) >= 8 else ''}")
+    ctype = "list (list (nat * (fval * fval))) * Z * Z * list aspec * list Z * list (list Z) * pres * bool * bool * Z * list fval"
+    letc = "let '(tbl, lim, isz, sp, sh, pv, o, valid, bnd, rounds, ms) := c in"
+
+    def describe(i, with_model=True):
+        origin, specs, shape, prev, dtype, limit, kind, out, tbl = kept[i]
+        d = {"origin": origin, "chunks": specs, "shape": shape, "previous_chunks": prev, "dtype": dtype, "limit": limit,
+             "impl": out if kind == "ok" else kind}
+        if with_model:
+            lit = clist(tbl, lambda row: clist(row, lambda e: ctuple(f"{e[0]}%nat", ctuple(cfval(e[1]), cfval(e[2])))))
+            d["model"] = coq_eval_expr(HEADER_PREV, [f"normalize_chunks_prev (orc_of_table {lit}) {PREV_FUEL} {cz(limit)} "
+                                                     f"{cz(np.dtype(dtype).itemsize)} {clist(specs, cspec)} {clist(shape)} {cprev(prev)}"])[0]
+        return d
+    # (1) the tie: implementation == model, exactly (and the model's exact multiplier of every pass is the recorded float
+    #     up to 2^-40)
+    # (2) the hypotheses of the termination theorem hold on every accepted well-formed run (C16_prev_terminates: every
+    #     pass sane; then the passes needed stay within reduce_fuel_bound), and the byte-bound theorem is consistent with
+    #     the real output (C16_prev_limit: prev_acc 5 4 -> bound)
+    # (3) coverage of the byte-bound theorem: on how many accepted well-formed runs is its accuracy hypothesis true
+    defs = (
+        f"Definition chk_tie (c : {ctype}) : bool := {letc}\n"
+        f"  mults_close (prev_mults (orc_of_table tbl) {PREV_FUEL} lim isz sp sh pv) ms &&\n"
+        f"  match normalize_chunks_prev (orc_of_table tbl) {PREV_FUEL} lim isz sp sh pv, o with\n"
+        "  | POk a, POk b => zlist2_eqb a b && layout_ok a sh\n"
+        "  | PErr _, PErr _ => true\n"
+        "  | PFuel, PFuel => true\n"
+        "  | _, _ => false end.\n"
+        f"Definition chk_hyp (c : {ctype}) : bool := {letc}\n"
+        f"  negb valid ||\n"
+        f"  (prev_sane (orc_of_table tbl) {PREV_FUEL} lim isz sp sh pv &&\n"
+        "   match prev_start lim isz sp sh pv with\n"
+        "   | Some (true, cs, st0) => rounds <=? reduce_fuel_bound cs (ls_axes st0)\n"
+        "   | _ => true end &&\n"
+        f"   (negb (prev_acc 5 4 (orc_of_table tbl) {PREV_FUEL} lim isz sp sh pv) || bnd)).\n"
+        f"Definition chk_acc (c : {ctype}) : bool := {letc}\n"
+        f"  negb valid || prev_acc 5 4 (orc_of_table tbl) {PREV_FUEL} lim isz sp sh pv.")
+    mism, mism2, mism3 = coq_eval_multi(HEADER_PREV, ctype, defs, ["chk_tie", "chk_hyp", "chk_acc"], cases)
+    for i in mism[:5]:
+        chk.tie_break("correspondence:normalize_chunks with previous_chunks (AutoPrev.normalize_chunks_prev)", describe(i))
+    chk.traces_validated += len(cases) - len(mism)
+    for i in mism2[:5]:
+        chk.tie_break("assumption: a recorded pass is not sane (AutoPrev.round_sane) on a well-formed input, or the run needs more "
+                      "passes than reduce_fuel_bound, or prev_acc 5 4 holds and the byte bound does not", describe(i, False))
+    nvalid = sum(1 for k in kept if k[6] == "ok" and k[0] != "malformed")
+    chk.count("previous:theorem C16_prev_limit applies (prev_acc 5 4)", nvalid - len(mism3))
+    chk.count("previous:theorem C16_prev_limit does not apply", len(mism3))
+    chk.count("previous:theorem C16_prev_terminates hypotheses hold", nvalid - len(mism2))
 
 
 def replay(path):
@@ -258,7 +633,10 @@ def replay(path):
         if "previous_chunks" in d:
             kw["previous_chunks"] = fix(d["previous_chunks"])
         try:
-            print("impl now:", normalize_chunks(fix(d["chunks"]), shape=tuple(d["shape"]), limit=d["limit"], dtype=np.dtype(d["dtype"]), **kw))
+            with time_limit(20):
+                print("impl now:", normalize_chunks(fix(d["chunks"]), shape=tuple(d["shape"]), limit=d["limit"], dtype=np.dtype(d["dtype"]), **kw))
+        except Hang:
+            print("impl now: does not return within 20 s")
         except Exception as e:  # noqa: BLE001
             print("impl now raises:", repr(e))
 
@@ -267,9 +645,19 @@ def run(chk: Check):
     from dask_array._core_utils import normalize_chunks
     chk.rule = ("exhaustive small (rank<=2) + generated specs (int, tuple, -1, None, 'auto', malformed stream) x shapes incl. 0/1 "
                 "x dtypes x limits; impl vs Gallina model normalize_chunks (auto `size` float passed as exact-rational oracle) "
-                "and impl vs the property (valid layout, uniform sizes, byte limit); previous_chunks branch: property checks only; "
-                "non-trivial = accepted and not the single-chunk layout")
-    chk.assumptions = ["the k-th-root float `size` of auto_chunks is an oracle argument of the model (recomputed by the harness with the same float expression)"]
+                "and impl vs the property (valid layout, uniform sizes, byte limit); previous_chunks branch: corpus + generated + "
+                "directed families (dominant mode, tolerance band, int previous chunks, zero-length axes, shrinking case incl. the "
+                "shape boundary, huge limits, malformed stream) through normalize_chunks and x.rechunk, each call under a pass "
+                "limit (64) and a time limit: impl vs the property and impl == Gallina model AutoPrev.normalize_chunks_prev exactly "
+                "(floats `proposed`/`max_chunk_size` recorded from the running code as exact rationals = the model's oracle; the "
+                "model's exact multiplier of every pass within 2^-40 of the recorded float); the hypotheses of C16_prev_terminates "
+                "(every pass sane) are evaluated on every accepted well-formed run; non-trivial = accepted and not the single-chunk layout")
+    chk.assumptions = ["the k-th-root float `size` of auto_chunks is an oracle argument of the model (recomputed by the harness with the same float expression)",
+                       "previous_chunks branch: the floats `proposed` and `max_chunk_size` of every loop pass are oracle arguments of the model "
+                       "(recorded by tracing auto_chunks); C16_prev_limit assumes the last pass accurate (prev_acc), C16_prev_terminates "
+                       "assumes every pass sane (prev_sane) when the first multiplier is < 1 — both evaluated on the recorded runs",
+                       "runs whose recorded floats are complex or infinite (negative multiplier that is a Python float, not np.float64) are "
+                       "outside the model and only checked against the property"]
     chk.run_proofs()
     fam_normalize(chk, normalize_chunks, chk.tier)
     fam_previous(chk, normalize_chunks, chk.tier)
